@@ -1,5 +1,6 @@
 import FuModel.Proofs.GlobBase
 import FuModel.Proofs.GlobComplete
+import FuModel.Proofs.GlobTranslate
 
 /-!
 # C12 — property theorems (the statements; proofs in `Proofs/GlobBase.lean`, `Proofs/GlobComplete.lean`)
@@ -13,9 +14,12 @@ import FuModel.Proofs.GlobComplete
 * `C12_any`, `C12_star_all`, `C12_literal`, `C12_lone_backslash` — the readings of `?`, `*`,
   literals and a trailing backslash.
 
-What remains PARTIAL is the first half of the pipeline: that the translation of the pattern *text*
-into items agrees with the fnmatch specification (`Spec/Fnmatch.lean`) — carried by exhaustive
-enumeration over small alphabets and random patterns, with three known findings.
+* `C12_bracket_free_exact` — for patterns without `[` the whole pipeline (translation + mechanism) is
+  exactly the fnmatch specification (case-sensitive).
+
+What remains PARTIAL: the translation of bracket expressions (and case folding of the translation)
+against the fnmatch specification (`Spec/Fnmatch.lean`) — carried by exhaustive enumeration over
+small alphabets and random patterns, with three known findings, all inside bracket expressions.
 -/
 namespace FuModel.Find.Glob
 
@@ -23,6 +27,14 @@ namespace FuModel.Find.Glob
     is in their language -/
 theorem C12_mechanism_exact (icase : Bool) (is : List Item) (s : List Char) :
     matchesItems icase is s = true ↔ denot icase is s = true := matchesItems_iff icase is s
+
+/-- for patterns without bracket expressions the translation is the specification: the
+    case-sensitive tests -name, -path, -lname are exactly fnmatch, for every such pattern and every
+    subject (`?`, `*`, backslash quoting, a trailing backslash, every other character literal —
+    regular-expression metacharacters included) -/
+theorem C12_bracket_free_exact (p s : List Char) (hb : ∀ c ∈ p, c ≠ '[') :
+    (match globMatches false p s with | .ok b => some b | _ => none) = FuModel.Spec.Fnmatch.fnmatch false p s :=
+  glob_bracket_free_is_fnmatch p s hb
 
 /-- a star in the middle: `a*c` matches exactly the strings that start with `a` and end with `c`
     (two characters at least) — a consequence of exactness, for every subject -/
